@@ -7,6 +7,13 @@
 // with one flipped bit / made by another key / made over another transaction.
 //
 // The verdict "signature validation accepts" is observed on the era's own
+// Cases with p2 = true are the same transactions flagged is_valid = false
+// (phase-2 invalid): in Alonzo, Babbage and Conway the third element of the
+// envelope is false; a Dijkstra envelope cannot say so, there the decoded
+// transaction is flagged the way the library's block decoding flags the
+// members of a block's invalid_transactions.  Signature validation is a
+// phase-1 check: the specification's verdict does not read the flag.
+//
 // UtxoValidationRules list: the entries named UtxoValidateSignatures,
 // UtxoValidateRequiredVKeyWitnesses and UtxoValidateCollateralVKeyWitnesses
 // are run one by one on the decoded transaction; accepted = none of them
@@ -112,6 +119,7 @@ type row struct {
 	VW     []vwit   `json:"vw"`
 	BW     []bwit   `json:"bw"`
 	Ord    []lock   `json:"ord"` // non-empty: the inputs in the order the ledger sees them
+	P2     bool     `json:"p2"`  // flagged is_valid = false (eras of FlagEras only)
 	Accept bool     `json:"accept"`
 	Silent bool     `json:"silent"`
 	Why    []string `json:"why"`
@@ -150,6 +158,13 @@ func (r *row) normalise() {
 	})
 }
 
+func p2tag(p2 bool) string {
+	if p2 {
+		return ":p2invalid"
+	}
+	return ""
+}
+
 func okc(b bool) string {
 	if b {
 		return "v"
@@ -185,7 +200,11 @@ func (r *row) caseKey() string {
 		}
 		return strings.Join(x, "+")
 	}
-	return fmt.Sprintf("ins=%s:coll=%s:req=%s:vw=%s:bw=%s", j(ins), j(coll), j(req), j(vw), j(bw))
+	k := fmt.Sprintf("ins=%s:coll=%s:req=%s:vw=%s:bw=%s", j(ins), j(coll), j(req), j(vw), j(bw))
+	if r.P2 {
+		k += ":p2invalid"
+	}
+	return k
 }
 
 // ---------------------------------------------------------------- tiny CBOR writer
@@ -378,6 +397,10 @@ type eraEnv struct {
 	alonzoUp  bool // has collateral (13) and required signers (14)
 	sets      bool // accepts #6.258 sets (Conway and later)
 	fourParts bool // [body, wits, is_valid, aux] envelope
+	// how a transaction of the era gets IsValid() = false: "" (it cannot),
+	// "envelope" (third element false) or "block" (flagged after decoding, as
+	// a member of a block's invalid_transactions is)
+	flag string
 	decodeTx  func([]byte) (common.Transaction, error)
 	decodeOut func([]byte) (common.TransactionOutput, error)
 	ls        common.LedgerState
@@ -424,19 +447,19 @@ func eras(u *universe) ([]*eraEnv, error) {
 			decodeOut: func(b []byte) (common.TransactionOutput, error) {
 				return mary.NewMaryTransactionOutputFromCbor(b)
 			}},
-		{name: "alonzo", pp: &alp, rules: alonzo.UtxoValidationRules, alonzoUp: true, fourParts: true,
+		{name: "alonzo", pp: &alp, rules: alonzo.UtxoValidationRules, alonzoUp: true, fourParts: true, flag: "envelope",
 			decodeTx: func(b []byte) (common.Transaction, error) { return alonzo.NewAlonzoTransactionFromCbor(b) },
 			decodeOut: func(b []byte) (common.TransactionOutput, error) {
 				return alonzo.NewAlonzoTransactionOutputFromCbor(b)
 			}},
-		{name: "babbage", pp: &bap, rules: babbage.UtxoValidationRules, alonzoUp: true, fourParts: true,
+		{name: "babbage", pp: &bap, rules: babbage.UtxoValidationRules, alonzoUp: true, fourParts: true, flag: "envelope",
 			decodeTx:  func(b []byte) (common.Transaction, error) { return babbage.NewBabbageTransactionFromCbor(b) },
 			decodeOut: baOut},
-		{name: "conway", pp: &cop, rules: conway.UtxoValidationRules, alonzoUp: true, fourParts: true, sets: true,
+		{name: "conway", pp: &cop, rules: conway.UtxoValidationRules, alonzoUp: true, fourParts: true, sets: true, flag: "envelope",
 			decodeTx:  func(b []byte) (common.Transaction, error) { return conway.NewConwayTransactionFromCbor(b) },
 			decodeOut: baOut},
 		{name: "dijkstra", pp: &dijkstra.DijkstraProtocolParameters{ConwayProtocolParameters: dip},
-			rules: dijkstra.UtxoValidationRules, alonzoUp: true, fourParts: true, sets: true,
+			rules: dijkstra.UtxoValidationRules, alonzoUp: true, fourParts: true, sets: true, flag: "block",
 			decodeTx:  func(b []byte) (common.Transaction, error) { return dijkstra.NewDijkstraTransactionFromCbor(b) },
 			decodeOut: baOut},
 	}
@@ -592,14 +615,33 @@ func build(e *eraEnv, u *universe, r *row, seed int64) (*built, error) {
 		wits = append(wits, kv{2, set(bw...)})
 	}
 	witBytes := cMap(wits...)
+	if r.P2 && e.flag == "" {
+		return nil, fmt.Errorf("a %s transaction cannot be flagged is_valid = false", e.name)
+	}
 	if e.fourParts {
-		b.txBytes = cArr(bodyBytes, witBytes, []byte{0xf5}, []byte{0xf6})
+		isValid := []byte{0xf5}
+		if r.P2 && e.flag == "envelope" {
+			isValid = []byte{0xf4}
+		}
+		b.txBytes = cArr(bodyBytes, witBytes, isValid, []byte{0xf6})
 	} else {
 		b.txBytes = cArr(bodyBytes, witBytes, []byte{0xf6})
 	}
 	tx, err := e.decodeTx(b.txBytes)
 	if err != nil {
 		return nil, fmt.Errorf("decode %s transaction %x: %w", e.name, b.txBytes, err)
+	}
+	if r.P2 && e.flag == "block" {
+		// the envelope cannot carry the flag: the block does (invalid_transactions),
+		// and block decoding writes it into the decoded transaction's TxIsValid
+		dt, ok := tx.(*dijkstra.DijkstraTransaction)
+		if !ok {
+			return nil, fmt.Errorf("%s transaction decodes to %T: no way to flag it", e.name, tx)
+		}
+		dt.TxIsValid = false
+	}
+	if tx.IsValid() == r.P2 {
+		return nil, fmt.Errorf("%s transaction built with is_valid = %v decodes with IsValid() = %v", e.name, !r.P2, tx.IsValid())
 	}
 	b.tx = tx
 	return b, nil
@@ -647,6 +689,20 @@ func main() {
 			only[e] = true
 		}
 	}
+	// the eras whose transactions can be flagged is_valid = false come from the
+	// specification (FlagEras); the driver only knows how to do it
+	flagEras := map[string]bool{}
+	if fe := os.Getenv("C28_FLAG_ERAS"); fe != "" {
+		for _, e := range strings.Split(fe, ",") {
+			flagEras[e] = true
+		}
+	} else {
+		for _, r := range rows {
+			if r.P2 {
+				rep.Dead("flagged cases, but C28_FLAG_ERAS (the specification's FlagEras) is not set")
+			}
+		}
+	}
 	seed := vh.Seed()
 	rng := rand.New(rand.NewSource(seed))
 	u := newUniverse(rng)
@@ -656,6 +712,18 @@ func main() {
 	}
 	for i := range rows {
 		rows[i].normalise()
+	}
+	for _, e := range envs {
+		if flagEras[e.name] && e.flag == "" {
+			rep.Dead("the specification flags %s transactions; the driver does not know how", e.name)
+		}
+		if !flagEras[e.name] && e.flag != "" {
+			rep.Dead("%s transactions can be flagged (%s); the specification's FlagEras does not list the era", e.name, e.flag)
+		}
+		delete(flagEras, e.name)
+	}
+	if len(flagEras) > 0 {
+		rep.Dead("FlagEras of the specification names unknown eras: %v", flagEras)
 	}
 
 	// the universe must be what the rows talk about: distinct key hashes and roots
@@ -733,7 +801,8 @@ func main() {
 		return true
 	}
 	acceptedPerEra, rejectedPerEra := map[string]int{}, map[string]int{}
-	skipped := 0
+	flaggedAccepted, flaggedRejected := map[string]int{}, map[string]int{}
+	skipped, unflaggable := 0, 0
 	workers := runtime.NumCPU()
 	if workers > 6 {
 		workers = 6
@@ -753,6 +822,7 @@ func main() {
 				replay := map[string]any{
 					"era": e.name, "case": r.caseKey(), "spec_accept": r.Accept, "spec_why": r.Why,
 					"tx_cbor": hex.EncodeToString(b.txBytes), "invalid_signatures": b.bad,
+					"p2invalid": r.P2, "tx_is_valid": b.tx.IsValid(),
 					"rules": e.sigNames, "seed": seed,
 				}
 				v, p := judge(e, b.tx)
@@ -765,6 +835,13 @@ func main() {
 				replay["code_accept"] = v.accept
 				replay["code_failures"] = v.fails
 				mu.Lock()
+				if r.P2 {
+					if v.accept {
+						flaggedAccepted[e.name]++
+					} else {
+						flaggedRejected[e.name]++
+					}
+				}
 				if v.accept {
 					acceptedPerEra[e.name]++
 				} else {
@@ -773,7 +850,7 @@ func main() {
 				mu.Unlock()
 				switch {
 				case v.accept && !r.Accept:
-					if !more(e.name + ":accept:" + strings.Join(r.Why, "+")) {
+					if !more(e.name + ":accept:" + strings.Join(r.Why, "+") + p2tag(r.P2)) {
 						continue
 					}
 					rep.Disagree(key+":code=accept:spec=reject",
@@ -784,15 +861,15 @@ func main() {
 					silentRejected[e.name]++
 					mu.Unlock()
 				case !v.accept && r.Accept:
-					if !more(e.name + ":reject") {
+					if !more(e.name + ":reject" + p2tag(r.P2)) {
 						continue
 					}
 					rep.Disagree(key+":code=reject:spec=accept",
 						fmt.Sprintf("signature validation of %s rejects a transaction whose owners and required signers are all witnessed by valid signatures: %v",
 							e.name, v.fails), replay)
 				}
-				if j.i%9973 == 17 {
-					rep.Sample(map[string]any{"case": key, "spec_accept": r.Accept, "spec_why": r.Why,
+				if j.i%9973 == 17 || (r.P2 && j.i%7919 == 101) {
+					rep.Sample(map[string]any{"case": key, "tx_is_valid": b.tx.IsValid(), "spec_accept": r.Accept, "spec_why": r.Why,
 						"code_accept": v.accept, "code_failures": v.fails, "tx": hex.EncodeToString(b.txBytes)})
 				}
 			}
@@ -808,6 +885,10 @@ func main() {
 				skipped++ // the era's transaction body has neither collateral nor required signers
 				continue
 			}
+			if r.P2 && e.flag == "" {
+				unflaggable++ // the era's transactions have no is_valid flag
+				continue
+			}
 			jobs <- job{e, r, i}
 		}
 	}
@@ -815,14 +896,22 @@ func main() {
 	wg.Wait()
 
 	names := map[string][]string{}
+	flagHow := map[string]string{}
 	for _, e := range envs {
 		names[e.name] = e.sigNames
+		if e.flag != "" {
+			flagHow[e.name] = e.flag
+		}
 	}
 	rep.Extra["signature_rules_found_in_era_lists"] = names
 	rep.Extra["accepted_per_era"] = acceptedPerEra
 	rep.Extra["rejected_per_era"] = rejectedPerEra
 	rep.Extra["rows"] = len(rows)
 	rep.Extra["rows_not_applicable_pre_alonzo"] = skipped
+	rep.Extra["flagged_rows_not_applicable_pre_alonzo"] = unflaggable
+	rep.Extra["phase2_flag_realisation"] = flagHow
+	rep.Extra["flagged_is_valid_false_accepted_per_era"] = flaggedAccepted
+	rep.Extra["flagged_is_valid_false_rejected_per_era"] = flaggedRejected
 	rep.Extra["property_silent_byron_collateral_with_bootstrap_witness_rejected"] = silentRejected
 	rep.Extra["key_address_shapes"] = map[string]string{"owner1": u.addrKind[1], "owner2": u.addrKind[2]}
 	if suppressed > 0 {
@@ -834,6 +923,8 @@ func main() {
 	rep.Extra["c28_note"] = "verdict = the entries of <era>.UtxoValidationRules named UtxoValidateSignatures / " +
 		"UtxoValidateRequiredVKeyWitnesses / UtxoValidateCollateralVKeyWitnesses, each run on the decoded transaction; " +
 		"a case whose collateral is a Byron address witnessed by a bootstrap witness obliges the code only to reject " +
-		"when the specification rejects (the property is an implication)"
+		"when the specification rejects (the property is an implication); a :p2invalid case is the same transaction " +
+		"flagged is_valid = false (envelope: third element false; block: TxIsValid of the decoded transaction cleared, as " +
+		"block decoding does for the block's invalid_transactions), judged by the same rules with the same expected verdict"
 	rep.Finish()
 }
